@@ -58,6 +58,10 @@ def may_raise_calls_only(node: ast.AST) -> bool:
     return False
 
 
+# filled by octacheck.source.Project: simple names of package functions whose return annotation excludes None
+RETURNS_NOT_NONE: set[str] = set()
+
+
 class CFG:
     def __init__(self, fn: ast.AST, raise_pred: Callable[[ast.AST], bool] = may_raise_calls_only):
         self.fn = fn
@@ -97,10 +101,24 @@ class CFG:
             if a.kind != "stmt" or not isinstance(a.ast, ast.Assign) or len(a.ast.targets) != 1 or not isinstance(a.ast.targets[0], ast.Name):
                 continue
             v = a.ast.value
+
+            def call_not_none(c: ast.AST) -> bool:
+                return isinstance(c, ast.Call) and ((isinstance(c.func, ast.Name) and c.func.id in RETURNS_NOT_NONE) or (isinstance(c.func, ast.Attribute) and isinstance(c.func.value, ast.Name) and c.func.value.id in ("self", "cls") and c.func.attr in RETURNS_NOT_NONE))
+
             if isinstance(v, ast.Constant):
                 is_none = v.value is None
             elif isinstance(v, (ast.JoinedStr, ast.Dict, ast.List, ast.Tuple, ast.Set)):
                 is_none = False
+            elif call_not_none(v):
+                is_none = False
+            elif isinstance(v, ast.Name):
+                # a copy of a local whose only binding is such a call
+                binds = [n_ for n_ in ast.walk(self.fn) if isinstance(n_, ast.Name) and n_.id == v.id and isinstance(n_.ctx, (ast.Store, ast.Del))]
+                src_ = getattr(binds[0], "_parent", None) if len(binds) == 1 else None
+                if isinstance(src_, ast.Assign) and len(src_.targets) == 1 and src_.targets[0] is binds[0] and call_not_none(src_.value):
+                    is_none = False
+                else:
+                    continue
             else:
                 continue
             x = a.ast.targets[0].id
